@@ -459,18 +459,30 @@ impl Recovery {
                     candidate.path.display()
                 ));
             }
-            if i > 0 {
-                let prev = &self.candidates[i - 1];
-                if prev.id != candidate.id - 1 {
-                    return Err(anyhow::anyhow!(
-                        "Gap in segment IDs: this {}, last {}",
-                        candidate.id,
-                        prev.id
-                    ));
-                }
-            }
         }
 
+        Ok(())
+    }
+
+    /// Checks that the segments holding the live range are numbered without gaps.
+    ///
+    /// Segments outside of the live range are about to be removed. Their removal by an earlier
+    /// prune may have reached the disk only in part, so gaps among them are expected.
+    fn check_live_segments_gapless(&self) -> Result<()> {
+        let (Some(start), Some(end)) = (self.live_segment_start, self.live_segment_end) else {
+            return Ok(());
+        };
+        for i in start + 1..=end {
+            let prev = &self.candidates[i - 1];
+            let candidate = &self.candidates[i];
+            if prev.id != candidate.id - 1 {
+                return Err(anyhow::anyhow!(
+                    "Gap in segment IDs: this {}, last {}",
+                    candidate.id,
+                    prev.id
+                ));
+            }
+        }
         Ok(())
     }
 
@@ -719,6 +731,8 @@ where
             "Failed to find the last live segment",
         );
     }
+
+    recovery.check_live_segments_gapless()?;
 
     let mut segments = recovery.remove_nonlive_segments()?;
     let mut head_segment_writer = None;
